@@ -6,6 +6,7 @@ from rules import payload as O
 from rules import chk as K
 from rules import misc as M
 from rules import durability as D
+from rules import operators as OP
 
 
 def run(ctx):
@@ -25,6 +26,7 @@ def run(ctx):
     ctx.run(D.erv4_no_error_discarded)
     ctx.run(L.flw22_busy_flag_released)
     ctx.run(S.pan4_constant_result_columns)
+    ctx.run(OP.pan5_result_type_lattice_total)
     return ctx.finish(
         'Static analysis of compiler MIR: deadlock-freedom clauses (acyclic lock-order graph over '
         'all lock identities, no guard across blocking calls except tabled sites, paired condvar '
